@@ -508,14 +508,15 @@ def completion_check(I, strict_pending=True):
     content; operations whose acknowledgement has not arrived have no DONE."""
     out = []
     fed = []       # (seg, kind, pid, pkt) acknowledgements fed so far while run() is serving
-    pings_fed = 0
-    pings_done = 0
-    ping_ops = [op for op in sorted(I.ops.values(), key=lambda o: o.id) if op.kind == 'PING']
+    ping_queue = []      # pings whose PINGREQ was written, in issue order (a dropped one still owns the next PINGRESP)
+    ping_released = set()
     for e in I.events:
+        if e['kind'] == 'w' and isinstance(e['owner'], Op) and e['owner'].kind == 'PING':
+            ping_queue.append(e['owner'])
         if e['kind'] == 'in' and e['pkt'] is not None and e['ctx'] == 'run' and e['pkt']['type'] in ACK_KIND:
             p = e['pkt']
-            if p['type'] == 13:
-                pings_fed += 1
+            if p['type'] == 13 and ping_queue:
+                ping_released.add(ping_queue.pop(0).id)
             fed.append((e['seg'], ACK_KIND[p['type']], p.get('pid'), p))
         if e['kind'] != 'done' or e['op'] is None:
             continue
@@ -527,9 +528,9 @@ def completion_check(I, strict_pending=True):
                 out.append((I.name, e['seg'], f'op{op.id} fire-and-forget completed with `{txt}`'))
             continue
         if op.kind == 'PING':
-            pings_done += 1
-            if pings_done > pings_fed:
-                out.append((I.name, e['seg'], f'op{op.id}: ping completed without a PINGRESP of its own'))
+            uncertain = any(o.kind == 'PING' and o.dropped is not None and (not o.w or o.w[0][0] > o.dropped) for o in I.ops.values())
+            if op.id not in ping_released and not uncertain:
+                out.append((I.name, e['seg'], f'op{op.id}: ping completed although the PINGRESP for it (one per ping, in issue order) has not arrived'))
             continue
         if op.pid is None:
             out.append((I.name, e['seg'], f'op{op.id} completed with `{txt}` but never reached the wire'))
@@ -852,7 +853,7 @@ def o_C13(I):
                 out.append((I.name, e['seg'], f"run() returned `{e['text']}` on undecodable input"))
             cause = 'done'
     # a cause without a return
-    if cause not in (None, 'done') and not any(e['kind'] in ('dropctx', 'dropfut') or e['kind'] == 'hold' and e['task'] == 'ctx' for e in I.events):
+    if cause not in (None, 'done') and not any(e['kind'] in ('dropctx', 'dropfut') for e in I.events) and 'ctx' not in I.held:
         out.append((I.name, cause[1], f'run() did not return after its terminating cause {cause}'))
     # first response of connect()/authorize(): checked by o_C02 (mapping) and here (transport end)
     for n, e in enumerate(I.events):
@@ -908,14 +909,35 @@ def o_C15(I):
     """cancellation: run() returns only for a C13 cause, the others complete properly, quota accounting stays exact.
     K1 (known finding): a QoS 2 publish dropped before it sent PUBREL leaves its exchange (and slot) unfinished."""
     out = o_C13(I) + completion_check(I) + o_C10(I)
-    # K1 detection
+    # a cancelled QoS 2 publish: either it never got to queue its PUBREL (K1, known finding), or it did — then the
+    # PUBREL must still be written, otherwise the exchange (and its flow-control slot) is lost
     for op in I.ops.values():
-        if op.kind == 'PUBLISH' and op.qos == 2 and op.dropped is not None and op.pid is not None:
+        if op.kind == 'PUBLISH' and op.qos == 2 and op.dropped is not None and op.pid is not None and op.w:
             rels = [1 for s, pk, raw in op.w if pk and pk['type'] == 6]
             okrec = [e for e in I.events if e['kind'] == 'in' and e['pkt'] and e['pkt']['type'] == 5 and e['pkt']['pid'] == op.pid
-                     and e['pkt']['reason'] < 0x80 and e['seg'] >= op.w[0][0]] if op.w else []
-            if okrec and not rels:
+                     and e['pkt']['reason'] < 0x80 and e['seg'] >= op.w[0][0] and e['ctx'] == 'run']
+            if not okrec or rels:
+                continue
+            f = okrec[0]['seg']
+            if f > op.dropped:
+                queued = False                       # dropped while awaiting PUBREC
+            else:
+                held_at_f = False
+                polled_later = False
+                for e in I.events:
+                    if e['seg'] > op.dropped or (e['seg'] == op.dropped and e['kind'] == 'drop'):
+                        break
+                    if e['kind'] == 'hold' and e['task'] == f'op{op.id}' and e['seg'] <= f:
+                        held_at_f = True
+                    if e['kind'] == 'release' and e['task'] == f'op{op.id}' and e['seg'] <= f:
+                        held_at_f = False
+                    if e['kind'] in ('release', 'poll') and e['task'] == f'op{op.id}' and e['seg'] > f:
+                        polled_later = True
+                queued = (not held_at_f) or polled_later
+            if not queued:
                 out.append((I.name, op.dropped, 'KNOWN:K1 QoS 2 publish future dropped before its PUBREL was sent: the exchange is never completed'))
+            elif 'ctx' not in I.held and not any(e['kind'] in ('ret', 'dropctx', 'dropfut') for e in I.events if e['seg'] >= f and e.get('call', 'run') == 'run'):
+                out.append((I.name, op.dropped, f'op{op.id}: the PUBREL queued by a QoS 2 publish that was then cancelled was never written: its exchange and send-quota slot are lost'))
     return out
 
 
